@@ -99,6 +99,16 @@ def decide(triples):
     out, reqs, meta = [], [], []
     for c, m, i in triples:
         names = [k for k, v in c.kw]
+        stars = {p[0] for p in c.d['params'] if p[1] in ('VP', 'VK')}
+        has_vk = any(p[1] == 'VK' for p in c.d['params'])
+        if set(names) & stars and has_vk and i == ('err', 'ValueError') \
+                and not (set(names) & (po_star_names(c.d, c.n) - stars)):
+            # known finding (delimited class): a bound keyword spelled like the function's own *args /
+            # **kwargs parameter is absorbed by **kwargs, but the result cannot hold a keyword-only
+            # parameter and a star parameter of one name
+            reqs.append('partialnone %s %d %s' % (tok_sig(c.d), c.n, tok_names([k for k in names if k not in stars])))
+            meta.append((c, i, 'star-named'))
+            continue
         if set(names) & po_star_names(c.d, c.n):
             continue
         if i[0] == 'ok':
@@ -114,6 +124,9 @@ def decide(triples):
     for (c, i, kind), ans in zip(meta, ask(reqs)):
         cex = parse_cex(ans)
         if cex is None:
+            continue
+        if kind == 'star-named':
+            out.append((c, 'C19:keyword-named-like-star', '%s raised ValueError although the partial object is valid (the keyword spelled like a star parameter goes to **kwargs; e.g. call %s)' % (c.show(), show_call(cex))))
             continue
         if kind == 'exact':
             out.append((c, 'C19:exact', '%s = %s disagrees with calling the partial object on call %s' % (c.show(), show_sig(i[1]), show_call(cex))))
@@ -337,3 +350,10 @@ def replay(ctx, data):
         discovery_checks(ctx, rr, [_fix_desc(r['sig'])['params']])
         return rr.v[0] if rr.v else None
     return None
+
+
+def replay_known(ctx, k):
+    if k.get('key') != 'C19:keyword-named-like-star':
+        return True
+    c = case_from_data(k['witness'])
+    return any(x[1] == k['key'] for x in decide([(c, None, c.impl())]))
